@@ -4,6 +4,7 @@ import (
 	"fmt"
 	"go/token"
 	"go/types"
+	"os"
 	"sort"
 	"strings"
 
@@ -38,7 +39,13 @@ import (
 //	         method is keyed by one and the same encoding of the method's parameter.
 //
 // Guards may live in the caller of an extracted helper (lift), node literals in a
-// constructor (fresh), child indices in an index helper (resolveIdx): the rules
+// constructor (fresh: a literal, the result of a - possibly nested - constructor, or
+// the node parameter of an unexported helper that is handed a fresh node at every call
+// site), child indices in an index helper (resolveIdx), the re-attachment of a
+// replaced node in the constructor that builds its new parent or in an attaching
+// helper (reattached: computed from the callee's body on every return path), the
+// publishing store in a helper that is handed the cell pointer and the occupant
+// (keepLifted: "is the occupant of" is then demanded at every call site): the rules
 // were exercised against such behaviour-preserving rewrites of trie.go.
 const (
 	c36IPPkg   = "felix/ip"
@@ -318,12 +325,100 @@ func (m *c36Model) fresh(v ssa.Value) *c36Fresh {
 	if fr, ok := m.freshMemo[v]; ok {
 		return fr
 	}
+	m.freshMemo[v] = nil // recursion guard
 	var fr *c36Fresh
+	// foreign: a field value of a node made elsewhere, in the terms of function `in`
+	// whose call `args` bind the maker's parameters (nil args: nothing can be named)
+	foreign := func(sv ssa.Value, maker *ssa.Function, args []ssa.Value) ssa.Value {
+		switch y := sv.(type) {
+		case *ssa.Parameter:
+			if maker == nil {
+				return nil
+			}
+			for i, pa := range maker.Params {
+				if pa == y && i < len(args) {
+					return args[i]
+				}
+			}
+		case *ssa.Const:
+			return y
+		}
+		return nil
+	}
 	switch x := v.(type) {
 	case *ssa.Alloc:
 		if m.isNodePtr(x.Type()) {
 			fr = &c36Fresh{val: v, fields: map[int][]ssa.Value{}}
-			for _, r := range *x.Referrers() {
+		}
+	case *ssa.Call:
+		// constructor: every result is a node created in the callee (a literal, the
+		// result of a further constructor, or a parameter that is itself always fresh)
+		sf := x.Common().StaticCallee()
+		if sf == nil || sf.Pkg != m.pkg || sf.Blocks == nil || !m.isNodePtr(x.Type()) {
+			break
+		}
+		rets := returnsOf(sf)
+		out := &c36Fresh{val: v, fields: map[int][]ssa.Value{}}
+		ok := len(rets) > 0
+		for _, r := range rets {
+			if len(r.Results) != 1 {
+				ok = false
+				break
+			}
+			inner := m.fresh(r.Results[0])
+			if inner == nil {
+				ok = false
+				break
+			}
+			for f, vals := range inner.fields {
+				for _, sv := range vals {
+					out.fields[f] = append(out.fields[f], foreign(sv, sf, x.Common().Args))
+				}
+			}
+		}
+		if ok {
+			fr = out
+		}
+	case *ssa.Parameter:
+		// node parameter of an unexported helper that is handed a fresh node at every
+		// one of its (static) call sites: the helper works on a node under construction
+		fn := x.Parent()
+		if !m.isNodePtr(x.Type()) || fn == nil || fn.Pkg != m.pkg || fn.Parent() != nil || c36Exported(fn) || m.usedAsValue(fn) {
+			break
+		}
+		idx := -1
+		for i, pa := range fn.Params {
+			if pa == x {
+				idx = i
+			}
+		}
+		sites := m.callSites(fn)
+		out := &c36Fresh{val: v, fields: map[int][]ssa.Value{}}
+		ok := idx >= 0 && len(sites) > 0
+		for _, cs := range sites {
+			if !ok || idx >= len(cs.Common().Args) {
+				ok = false
+				break
+			}
+			inner := m.fresh(cs.Common().Args[idx])
+			if inner == nil {
+				ok = false
+				break
+			}
+			for f, vals := range inner.fields {
+				for _, sv := range vals {
+					out.fields[f] = append(out.fields[f], foreign(sv, nil, nil))
+				}
+			}
+		}
+		if ok {
+			fr = out
+		}
+	}
+	if fr != nil {
+		// fields assigned directly through v in its own function
+		if refs := v.Referrers(); refs != nil {
+			for _, r := range *refs {
 				fa, ok := r.(*ssa.FieldAddr)
 				if !ok || fa.X != v {
 					continue
@@ -335,55 +430,32 @@ func (m *c36Model) fresh(v ssa.Value) *c36Fresh {
 				}
 			}
 		}
-	case *ssa.Call:
-		sf := x.Common().StaticCallee()
-		if sf == nil || sf.Pkg != m.pkg || sf.Blocks == nil || !m.isNodePtr(x.Type()) {
-			break
-		}
-		m.freshMemo[v] = nil // recursion guard
-		rets := returnsOf(sf)
-		out := &c36Fresh{val: v, fields: map[int][]ssa.Value{}}
-		ok := len(rets) > 0
-		for _, r := range rets {
-			if len(r.Results) != 1 {
-				ok = false
-				break
-			}
-			al, isAl := r.Results[0].(*ssa.Alloc)
-			if !isAl {
-				ok = false
-				break
-			}
-			inner := m.fresh(al)
-			if inner == nil {
-				ok = false
-				break
-			}
-			for f, vals := range inner.fields {
-				for _, sv := range vals {
-					switch y := sv.(type) {
-					case *ssa.Parameter:
-						var a ssa.Value
-						for i, pa := range sf.Params {
-							if pa == y && i < len(x.Common().Args) {
-								a = x.Common().Args[i]
-							}
-						}
-						out.fields[f] = append(out.fields[f], a)
-					case *ssa.Const:
-						out.fields[f] = append(out.fields[f], y)
-					default:
-						out.fields[f] = append(out.fields[f], nil)
-					}
-				}
-			}
-		}
-		if ok {
-			fr = out
-		}
 	}
 	m.freshMemo[v] = fr
 	return fr
+}
+
+// usedAsValue: fn is referred to other than as the callee of a static call (its
+// call sites are then not all known).
+func (m *c36Model) usedAsValue(fn *ssa.Function) bool {
+	used := false
+	for _, g := range m.funcs {
+		allInstrs(g, false, func(_ *ssa.Function, in ssa.Instruction) {
+			if used {
+				return
+			}
+			var callee *ssa.Value
+			if ci, ok := in.(ssa.CallInstruction); ok {
+				callee = &ci.Common().Value
+			}
+			for _, op := range in.Operands(nil) {
+				if op != nil && *op == ssa.Value(fn) && op != callee {
+					used = true
+				}
+			}
+		})
+	}
+	return used
 }
 
 func (m *c36Model) isFreshNode(v ssa.Value) bool { return m.fresh(v) != nil }
@@ -656,12 +728,31 @@ func runC36(c *Ctx) {
 	c.Rule("C36.dispatch", "E-TWIN", "under Version()==k a non-comma-ok type assertion names the concrete CIDR/Addr type whose Version() returns k", 3)
 	c.Rule("C36.lpmkey", "E-PAIR", "calc.IpTrie: every patricia-trie operation of a method is keyed by one encoding expression of the method's own CIDR/Addr parameter; all exact-key operations use one encoding, all prefix walks one", 5)
 
-	yields := c36Marker(m)
-	c36Contain(m, yields)
-	c36Descend(m)
-	c36Prune(m)
-	c36Dispatch(m)
-	c36LpmKey(c, c36LoadCalc(c))
+	// the families are independent: a lost anchor in one is recorded as a broken check
+	// but does not keep the others from being evaluated
+	var yields []c36Yield
+	c36Isolated(c, func() { yields = c36Marker(m) })
+	c36Isolated(c, func() { c36Contain(m, yields) })
+	c36Isolated(c, func() { c36Descend(m) })
+	c36Isolated(c, func() { c36Prune(m) })
+	c36Isolated(c, func() { c36Dispatch(m) })
+	c36Isolated(c, func() { c36LpmKey(c, c36LoadCalc(c)) })
+}
+
+func c36Isolated(c *Ctx, f func()) {
+	defer func() {
+		if r := recover(); r != nil {
+			if al, ok := r.(anchorLost); ok {
+				c.broken = append(c.broken, al.msg)
+				return
+			}
+			if os.Getenv("CALINT_DEBUG") != "" {
+				panic(r)
+			}
+			c.broken = append(c.broken, fmt.Sprintf("ENGINE-PANIC: %v", r))
+		}
+	}()
+	f()
 }
 
 // c36LoadCalc loads felix/calc for the lpmkey family.  That family reads only
@@ -1097,7 +1188,52 @@ func (m *c36Model) linked(fn *ssa.Function, n ssa.Value, r ssa.Instruction, dept
 			}
 		}
 	}
+	if _, isPa := n.(*ssa.Parameter); isPa {
+		return true // node under construction handed in by the caller: linking is the caller's business
+	}
 	for _, ref := range *n.Referrers() {
+		if ci, ok := ref.(ssa.CallInstruction); ok && instrDominates(ci, r) {
+			// handed to an in-package function that hangs it below the node it returns,
+			// or below another node it is handed: linked if that node is
+			sf := ci.Common().StaticCallee()
+			args := ci.Common().Args
+			if sf == nil || sf.Pkg != m.pkg || sf.Blocks == nil || len(args) > len(sf.Params) {
+				continue
+			}
+			for j, a := range args {
+				if a != n {
+					continue
+				}
+				isJ := func(v ssa.Value) bool { return v == sf.Params[j] }
+				rets := returnsOf(sf)
+				if cv, ok := ref.(*ssa.Call); ok && m.isNodePtr(cv.Type()) && len(rets) > 0 {
+					all := true
+					for _, rt := range rets {
+						if len(rt.Results) != 1 || !m.reattached(sf, rt.Results[0], isJ, rt, 2) {
+							all = false
+						}
+					}
+					if all && m.linked(fn, cv, r, depth+1) {
+						return true
+					}
+				}
+				for i, host := range args {
+					if i == j || !m.isNodePtr(host.Type()) || len(rets) == 0 {
+						continue
+					}
+					all := true
+					for _, rt := range rets {
+						if !m.reattached(sf, sf.Params[i], isJ, rt, 2) {
+							all = false
+						}
+					}
+					if all && m.linked(fn, host, r, depth+1) {
+						return true
+					}
+				}
+			}
+			continue
+		}
 		st, ok := ref.(*ssa.Store)
 		if !ok || st.Val != n || !instrDominates(st, r) {
 			continue
@@ -1638,14 +1774,19 @@ func c36Descend(m *c36Model) {
 					} else {
 						// complement of the slot an existing node was stored into, indexed by that node's own bit
 						base := idxBase(idx)
+						var sibs []ssa.Value // existing nodes stored into slot [base] of x
 						for _, sib := range m.slotStoresOf(fn, x) {
 							_, sidx, _ := m.slotAddr(sib.Addr)
 							if sib == w || sidx != base || m.isFreshNode(sib.Val) {
 								continue
 							}
+							sibs = append(sibs, sib.Val)
+						}
+						sibs = append(sibs, m.storedAtResult(base, x)...)
+						for _, sibVal := range sibs {
 							all := len(srcs) > 0
 							for _, s := range srcs {
-								if s.kind != "node" || s.node != sib.Val {
+								if s.kind != "node" || s.node != sibVal {
 									all = false
 								}
 							}
@@ -1662,11 +1803,29 @@ func c36Descend(m *c36Model) {
 					// result of a recursive pruner written back: C36.prune/writeback
 				default:
 					a := &acc{site: m.site(w)}
-					kind := "entry"
-					if !m.freshHasData(x) {
-						kind = "internal"
+					kindOf := func(host ssa.Value) string {
+						if !m.freshHasData(host) {
+							return "internal"
+						}
+						return "entry"
 					}
-					key := "C36.descend/" + fnName(fn) + "/reparent-" + kind
+					// The obligation is attributed to the function that creates the new
+					// parent: fn itself, or - for an attaching helper that is handed the
+					// node under construction - each of its call sites.
+					keys := []string{"C36.descend/" + fnName(fn) + "/reparent-" + kindOf(x)}
+					if pa, isPa := x.(*ssa.Parameter); isPa && m.isFreshNode(x) {
+						keys = nil
+						for i, q := range fn.Params {
+							if q != pa {
+								continue
+							}
+							for _, cs := range m.callSites(fn) {
+								if i < len(cs.Common().Args) {
+									keys = append(keys, "C36.descend/"+fnName(cs.Parent())+"/reparent-"+kindOf(cs.Common().Args[i]))
+								}
+							}
+						}
+					}
 					if !m.isFreshNode(x) {
 						a.und = append(a.und, fmt.Sprintf("existing node stored into a bit-indexed slot of an existing node at %s", m.site(w)))
 					}
@@ -1678,7 +1837,9 @@ func c36Descend(m *c36Model) {
 							a.bad = append(a.bad, fmt.Sprintf("existing node %s stored at %s into the slot selected by the address bit of %s instead of its own prefix", path(val), m.site(w), describe([]c36Src{s})))
 						}
 					}
-					report(key, a, "re-parented node goes into the slot selected by its own address bit", "descent by the query's bit would no longer reach it")
+					for _, key := range keys {
+						report(key, a, "re-parented node goes into the slot selected by its own address bit", "descent by the query's bit would no longer reach it")
+					}
 				}
 			}
 		})
@@ -1692,6 +1853,53 @@ func c36Descend(m *c36Model) {
 			fmt.Sprintf("%d bit-indexed child selection(s), all by the query's address bit", a.n),
 			"the bits of a node's address beyond its prefix are zero: slot 1 would never be searched")
 	}
+}
+
+// storedAtResult: `base` (a child index) is the result of an in-package helper that
+// is handed node x; lists the caller's (non-fresh) arguments which that helper stores,
+// on every return path, into the slot of x indexed by the very value it returns.
+func (m *c36Model) storedAtResult(base, x ssa.Value) []ssa.Value {
+	cv, ok := base.(*ssa.Call)
+	if !ok {
+		return nil
+	}
+	sf := cv.Common().StaticCallee()
+	args := cv.Common().Args
+	if sf == nil || sf.Pkg != m.pkg || sf.Blocks == nil || len(args) > len(sf.Params) {
+		return nil
+	}
+	var out []ssa.Value
+	for i, a := range args {
+		if a != x {
+			continue
+		}
+		for j, b := range args {
+			if j == i || !m.isNodePtr(b.Type()) || m.isFreshNode(b) {
+				continue
+			}
+			rets := returnsOf(sf)
+			all := len(rets) > 0
+			for _, r := range rets {
+				hit := false
+				if len(r.Results) == 1 {
+					ridx := idxBase(r.Results[0])
+					for _, s := range m.slotStoresOf(sf, sf.Params[i]) {
+						_, sidx, _ := m.slotAddr(s.Addr)
+						if s.Val == sf.Params[j] && idxBase(sidx) == ridx && instrDominates(s, r) {
+							hit = true
+						}
+					}
+				}
+				if !hit {
+					all = false
+				}
+			}
+			if all {
+				out = append(out, b)
+			}
+		}
+	}
+	return out
 }
 
 func isCallResult(v ssa.Value) bool {
@@ -1945,6 +2153,110 @@ func c36Prune(m *c36Model) {
 		}
 	}
 	// (keep) a fresh node is published over a cell only if the cell is nil or the occupant is re-attached
+	c36Keep(m, pruners)
+}
+
+// reattached: a value accepted by occ is stored into a child slot of node x on
+// every path to `before` (an instruction of fn).  The store may sit
+//   - in fn itself,
+//   - in the constructor that made x (x is the result of an in-package call: then
+//     on every return path of that function an argument accepted by occ is stored
+//     into the returned node - computed from the callee's body, recursively), or
+//   - in an in-package helper that is handed both x and the occupant before
+//     `before` and stores the one into a slot of the other on all its return paths.
+func (m *c36Model) reattached(fn *ssa.Function, x ssa.Value, occ func(ssa.Value) bool, before ssa.Instruction, depth int) bool {
+	for _, cs := range m.slotStoresOf(fn, x) {
+		if occ(cs.Val) && instrDominates(cs, before) {
+			return true
+		}
+	}
+	if depth <= 0 {
+		return false
+	}
+	inPkg := func(cc *ssa.CallCommon) *ssa.Function {
+		sf := cc.StaticCallee()
+		if sf == nil || sf.Pkg != m.pkg || sf.Blocks == nil || len(cc.Args) > len(sf.Params) {
+			return nil
+		}
+		return sf
+	}
+	// x made by a constructor
+	if cv, ok := x.(*ssa.Call); ok {
+		if sf := inPkg(cv.Common()); sf != nil && m.isNodePtr(cv.Type()) {
+			cand := map[ssa.Value]bool{}
+			for i, a := range cv.Common().Args {
+				if occ(a) {
+					cand[sf.Params[i]] = true
+				}
+			}
+			rets := returnsOf(sf)
+			all := len(cand) > 0 && len(rets) > 0
+			for _, r := range rets {
+				if len(r.Results) != 1 || !m.reattached(sf, r.Results[0], func(v ssa.Value) bool { return cand[v] }, r, depth-1) {
+					all = false
+					break
+				}
+			}
+			if all {
+				return true
+			}
+		}
+	}
+	// x and the occupant handed to an attaching helper
+	found := false
+	allInstrs(fn, false, func(_ *ssa.Function, in ssa.Instruction) {
+		ci, ok := in.(ssa.CallInstruction)
+		if !ok || found || ssa.Instruction(ci) == before || c36AsValue(in) == x || !instrDominates(in, before) {
+			return
+		}
+		sf := inPkg(ci.Common())
+		if sf == nil {
+			return
+		}
+		args := ci.Common().Args
+		for i, a := range args {
+			if a != x {
+				continue
+			}
+			cand := map[ssa.Value]bool{}
+			for j, b := range args {
+				if j != i && occ(b) {
+					cand[sf.Params[j]] = true
+				}
+			}
+			if len(cand) == 0 {
+				continue
+			}
+			rets := returnsOf(sf)
+			all := len(rets) > 0
+			for _, r := range rets {
+				if !m.reattached(sf, sf.Params[i], func(v ssa.Value) bool { return cand[v] }, r, depth-1) {
+					all = false
+					break
+				}
+			}
+			if all {
+				found = true
+			}
+		}
+	})
+	return found
+}
+
+// c36Keep: a fresh node is published over a cell (stored into the root / a child
+// slot / through a cell pointer, or returned in place of a node parameter) only if
+// the cell is known nil or its occupant is re-attached below the new node.  When
+// the publishing store sits in an unexported helper that is handed the cell
+// pointer and the occupant as two parameters, "is the occupant of" is demanded of
+// the two arguments at every call site.
+func c36Keep(m *c36Model, pruners map[*ssa.Function]bool) {
+	c := m.c
+	kindOf := func(x ssa.Value) string {
+		if m.freshHasData(x) {
+			return "entry"
+		}
+		return "internal"
+	}
 	for _, fn := range m.funcs {
 		allInstrs(fn, false, func(_ *ssa.Function, in ssa.Instruction) {
 			st, ok := in.(*ssa.Store)
@@ -1960,36 +2272,40 @@ func c36Prune(m *c36Model) {
 			}
 			x := st.Val
 			occ := func(v ssa.Value) bool { return c36Occupant(st.Addr, v, 0) }
-			kind := "internal"
 			if guardedCut(st, eqCond(true, occ, c36Not)) {
 				c.Ok("C36.prune/keep/"+fnName(fn)+"/append", m.site(st), "new node published into a cell whose occupant is known nil")
 				return
 			}
-			for _, cv := range m.freshField(x, m.fCidr) {
-				if _, ok := cv.(*ssa.Parameter); ok {
-					kind = "entry"
+			kind := kindOf(x)
+			kept := m.reattached(fn, x, occ, st, 3)
+			okText := "the node previously in the cell is re-attached as a child of the new node before it is published"
+			if !kept {
+				// cell pointer and occupant are both parameters of an extracted helper
+				if pp, isPa := st.Addr.(*ssa.Parameter); isPa && !c36Exported(fn) {
+					if how := m.keepLifted(fn, st, x, pp); how != "" {
+						kept, okText = true, how
+					}
 				}
 			}
-			kept := false
-			for _, cs := range m.slotStoresOf(fn, x) {
-				if occ(cs.Val) && instrDominates(cs, st) {
-					kept = true
-				}
-			}
-			c.Check(kept, "C36.prune/keep/"+fnName(fn)+"/"+kind, m.site(st),
-				"the node previously in the cell is re-attached as a child of the new node before it is published",
+			c.Check(kept, "C36.prune/keep/"+fnName(fn)+"/"+kind, m.site(st), okText,
 				fmt.Sprintf("new node published at %s over a cell that may hold a node, and that node is not stored into a child slot of the new one (its whole subtree is lost)", m.site(st)))
 		})
 	}
 	// the same for a function that is handed the occupant and returns its replacement
-	// (recursive insert): a fresh node is returned only if the occupant is nil or re-attached
+	// (recursive insert, extracted constructor of the replacing node): a fresh node is
+	// returned only if the occupant is nil or re-attached
 	for _, fn := range m.funcs {
 		if pruners[fn] {
 			continue
 		}
-		_, n := nodeParam(fn)
+		var nodes []*ssa.Parameter
+		for _, pa := range fn.Params {
+			if m.isNodePtr(pa.Type()) && !m.isFreshNode(pa) {
+				nodes = append(nodes, pa) // (a node under construction handed in is not an occupant)
+			}
+		}
 		res := fn.Signature.Results()
-		if n == nil || res.Len() != 1 || !m.isNodePtr(res.At(0).Type()) {
+		if len(nodes) == 0 || res.Len() != 1 || !m.isNodePtr(res.At(0).Type()) {
 			continue
 		}
 		for _, r := range returnsOf(fn) {
@@ -1997,27 +2313,65 @@ func c36Prune(m *c36Model) {
 			if !m.isFreshNode(x) {
 				continue
 			}
-			if guardedCut(r, c36ValNil(n, true)) {
+			var lost []string
+			appended := true
+			for _, n := range nodes {
+				n := n
+				if guardedCut(r, c36ValNil(n, true)) {
+					continue
+				}
+				appended = false
+				if !m.reattached(fn, x, func(v ssa.Value) bool { return v == n }, r, 3) {
+					lost = append(lost, path(n))
+				}
+			}
+			if appended {
 				c.Ok("C36.prune/keep/"+fnName(fn)+"/append", m.posOf(r), "new node returned in place of an occupant known nil")
 				continue
 			}
-			kind := "internal"
-			for _, cv := range m.freshField(x, m.fCidr) {
-				if _, ok := cv.(*ssa.Parameter); ok {
-					kind = "entry"
-				}
-			}
-			kept := false
-			for _, cs := range m.slotStoresOf(fn, x) {
-				if cs.Val == n && instrDominates(cs, r) {
-					kept = true
-				}
-			}
-			c.Check(kept, "C36.prune/keep/"+fnName(fn)+"/"+kind, m.posOf(r),
+			c.Check(len(lost) == 0, "C36.prune/keep/"+fnName(fn)+"/"+kindOf(x), m.posOf(r),
 				"the node being replaced is re-attached as a child of the new node before it is returned",
-				fmt.Sprintf("new node returned at %s in place of %s, which may be a node and is not stored into a child slot of the new one (its whole subtree is lost)", m.posOf(r), path(n)))
+				fmt.Sprintf("new node returned at %s in place of %s, which may be a node and is not stored into a child slot of the new one (its whole subtree is lost)", m.posOf(r), strings.Join(lost, ", ")))
 		}
 	}
+}
+
+// keepLifted: the publishing store `st` (of fresh node x, through cell-pointer
+// parameter pp of the unexported helper fn) is sound if some node parameter q of fn
+// is known nil or re-attached below x at the store, and at every call site of fn the
+// argument for q is the occupant of the cell the argument for pp points to.
+// Returns a description of how the obligation is met ("" if it is not).
+func (m *c36Model) keepLifted(fn *ssa.Function, st *ssa.Store, x ssa.Value, pp *ssa.Parameter) string {
+	pi := -1
+	for i, pa := range fn.Params {
+		if pa == pp {
+			pi = i
+		}
+	}
+	sites := m.callSites(fn)
+	if pi < 0 || len(sites) == 0 {
+		return ""
+	}
+	for qi, q := range fn.Params {
+		q := q
+		if !m.isNodePtr(q.Type()) {
+			continue
+		}
+		if !guardedCut(st, c36ValNil(q, true)) && !m.reattached(fn, x, func(v ssa.Value) bool { return v == q }, st, 3) {
+			continue
+		}
+		all := true
+		for _, cs := range sites {
+			args := cs.Common().Args
+			if pi >= len(args) || qi >= len(args) || !c36Occupant(args[pi], args[qi], 0) {
+				all = false
+			}
+		}
+		if all {
+			return fmt.Sprintf("%s is nil or re-attached below the new node, and at each of %d call site(s) it is the occupant of the cell handed in as %s", path(q), len(sites), path(pp))
+		}
+	}
+	return ""
 }
 
 // -------------------------------------------------------------- dispatch --
